@@ -1349,7 +1349,7 @@ func C10() *engine.Check {
 	return &engine.Check{
 		Property: "C10",
 		Level:    "model_checking",
-		Subs:     []*engine.Sub{c10CtorSub(), c10DecoderSub(), c10ShapeSub(), c10ValueSub()},
+		Subs:     []*engine.Sub{c10CtorSub(), c10DecoderSub(), c10ShapeSub(), c10ValueSub(), c07SharedSub(), c10ConcSub(), concRaceSub("C10")},
 		Assumptions: []string{
 			"must-reject expectations are derived from the property statement and the IPLD schemas (required / optional / nullable, field kinds); anything else may be accepted as long as the returned token is well formed",
 			"metadata integers are not bounded by the property; only argument and policy integers and time bounds are",
